@@ -337,6 +337,9 @@ class RangeAnalysis:
         self.panics = {}       # bb -> ISet of x for which an assert fails
         self.acyclic = not body.back_edges()
         self._phi_guard = set()
+        self._rd_guard = set()
+        self._rd_cache = {}
+        self.cur_block = None
         self.run()
 
     # ---------------------------------------------------------------- expression evaluation
@@ -362,6 +365,22 @@ class RangeAnalysis:
         if k == 'loc':
             if e[1] in self.env:
                 return self.env[e[1]]
+            if not self.acyclic and self.cur_block is not None:
+                ds = self.defs_reaching(e[1], self.cur_block)
+                if ds is not None and len(ds) == 1 and e[1] not in self._rd_guard:
+                    self._rd_guard.add(e[1])
+                    try:
+                        bi, si = ds[0]
+                        saved = self.cur_block
+                        self.cur_block = bi
+                        try:
+                            if si == 't':
+                                return self.ev(Resolver(self.body).call(self.body.blocks[bi]['t'], bi, 0))
+                            return self.ev(Resolver(self.body).rvalue(self.body.blocks[bi]['s'][si]['rv']))
+                        finally:
+                            self.cur_block = saved
+                    finally:
+                        self._rd_guard.discard(e[1])
             return self.phi(e[1])
         if k == 'cast':
             v = self.ev(e[2])
@@ -567,6 +586,42 @@ class RangeAnalysis:
             return sub.return_value()
         return self.top()
 
+    def defs_reaching(self, l, block):
+        """Definitions (bb, si) of whole local l that reach the end of `block` (None if l is an argument / unknown)."""
+        if l <= self.body.arg_count:
+            return None
+        if l not in self._rd_cache:
+            self._rd_cache[l] = reaching_defs(self.body, l)
+        inblock = [(bi, si) for bi, si, k, n in self.body.defs.get(l, []) if bi == block and k in ('assign', 'call')]
+        if inblock:
+            inblock.sort(key=lambda d: 10 ** 9 if d[1] == 't' else d[1])
+            return [inblock[-1]]
+        if any(k == 'partial' for _, _, k, _ in self.body.defs.get(l, [])):
+            return None
+        return sorted(self._rd_cache[l].get(block, ()), key=str)
+
+    def depends_on_x(self, e, block, seen=None):
+        """Syntactic closure: can the value of e depend on x (through multiply-assigned locals too)?"""
+        seen = seen if seen is not None else set()
+        for sub in walk(e):
+            if sub in self.xkeys:
+                return True
+            if sub[0] == 'loc':
+                l = sub[1]
+                if l in self.env and self.env[l].depends_on_x():
+                    return True
+                if l in seen or l <= self.body.arg_count:
+                    continue
+                seen.add(l)
+                for bi, si, k, n in self.body.defs.get(l, []):
+                    if k == 'assign':
+                        if self.depends_on_x(Resolver(self.body).rvalue(n['rv']), bi, seen):
+                            return True
+                    elif k == 'call':
+                        if self.depends_on_x(Resolver(self.body).call(n, bi, 0), bi, seen):
+                            return True
+        return False
+
     def phi(self, l):
         """Value of a multiply-assigned local: merge of its definitions, each restricted to the x that
         reach the defining block (only in acyclic bodies, where those sets are final when needed)."""
@@ -658,13 +713,15 @@ class RangeAnalysis:
         t = body.blocks[b]['t']
         if 'switch' in t:
             self.res.cur = (b, 't')
+            self.cur_block = b
             cond = self.res.operand(t['switch'])
             v = self.ev(cond)
             if v.all_top():
-                # does the condition mention x at all?
-                if self.opaque_ok and (any(sub in self.xkeys for sub in walk(cond)) or self.mentions_env(cond)):
+                # does the condition depend on x at all?
+                dep = self.depends_on_x(cond, b) or self.mentions_env(cond)
+                if self.opaque_ok and dep:
                     self.opaque_x.append(b)
-                elif any(sub in self.xkeys for sub in walk(cond)) or self.mentions_env(cond):
+                elif dep:
                     self.mixed.append((b, 'condition depends on x beyond the recognised operators: %s' % expr_str(cond, body)[:200]))
                 else:
                     self.opaque.append(b)
@@ -688,6 +745,7 @@ class RangeAnalysis:
             return out
         if 'assert' in t:
             self.res.cur = (b, 't')
+            self.cur_block = b
             cond = self.res.operand(t['assert'])
             v = self.ev(cond)
             tset, fset, uset = v.truth_set()
@@ -803,6 +861,7 @@ def _mk(facts, body, res, leaf, bits, N):
     ra.env, ra.depth, ra.res, ra.reach, ra.mixed, ra.opaque, ra.panics = {}, 0, res, {}, [], [], {}
     ra.acyclic, ra._phi_guard, ra.entries, ra.stop = False, set(), [], set()
     ra.ptrmap = getattr(facts, 'ptrmap', None)
+    ra._rd_guard, ra._rd_cache, ra.cur_block, ra.opaque_ok, ra.opaque_x = set(), {}, None, False, []
     return ra
 
 
